@@ -1284,6 +1284,9 @@ func runC06(args []string) int {
 		if doc.CRLF {
 			rep.hist("layout:+crlf")
 		}
+		if doc.Nested2 {
+			rep.hist("layout:+embedded-twice")
+		}
 		res := c06Oracle(doc, rnd, rep)
 		if res.skipped != "" {
 			rep.hist("oracle:skipped-document")
